@@ -16,6 +16,7 @@ DECIDED = [
     "CANCEL-NODE: each cancellation record is enqueued on every path after allocation and released after being consumed; a record's task reaches the inner cancel (which invokes unconditionally) only through a test that it is still linked / scheduled there or was removed from the hand-over queue by the request (found D14, fixed); record helpers are followed (they run where their callers run)",
     "BALANCE: no function returns holding the mutex; the wait is entered with the mutex held",
     "CANCEL: the inner scheduler's cancel detaches from a list when linked, from the heap only when scheduled, then invokes once (shared with C07)",
+    "ATOMIC-MAP (shared with C15): the atomic operations behind should_exit and the reference count perform the builtin and memory order their names say",
     "INNER (shared with C07): DETACH-FIRST, NEVER-EARLY, BATCH, SCHEDULE and HAS-TASKS of the single-threaded scheduler hold - the thread loop and the final release's `cancel remaining via clean-up` are built on them",
     "NOBLOCK: nothing that can invoke a task function (inner cancel/run-all/clean-up) and no client entry point runs while the hand-over mutex is held",
 ]
@@ -381,6 +382,9 @@ def analyse(ctx, replace=None, only=None):
         for e in hg.calls("aws_task_scheduler_cancel_task"):
             pending_tested(R, hg, e, "%s:record-cancels-only-a-pending-task" % hn)
     noblock(R, fns, helpers)
+    # the atomics the exit flag and the reference count are built on are what their names say
+    from rules import atomics_map
+    atomics_map.atomics_map(R, P)
     # the inner (single-threaded) scheduler's cancel contract, which the cancellation records rely on
     from rules import C07
     tsf = {f.name: f for f in P.functions_in("source/task_scheduler.c")}
